@@ -162,6 +162,49 @@ let run_case (t : string list) : string =
       let too x = BinNat.N.ltb m x in
       let v = if too hdr || too n then "ERR:toobig" else "OK" in
       Printf.sprintf "enc=%s dec=%s" v v
+  | [ "framelen2"; max; hn; bn ] ->
+      let v =
+        if SizeLimit.msg_size_ok (maxcfg max) (n_of_string hn) (n_of_string bn) then "OK"
+        else "ERR:toobig"
+      in
+      Printf.sprintf "req enc=%s dec=%s resp enc=%s dec=%s" v v v v
+  | [ "rpcsize"; cmax; smax; qh; qb; rh; rb ] ->
+      (match
+         SizeLimit.rpc_size_outcome (maxcfg cmax) (maxcfg smax) (n_of_string qh) (n_of_string qb)
+           (n_of_string rh) (n_of_string rb)
+       with
+       | SizeLimit.Delivered -> "delivered"
+       | SizeLimit.CallerRefusesSend -> "caller-refuses-send"
+       | SizeLimit.CalleeRefusesRecv -> "callee-refuses-recv"
+       | SizeLimit.CalleeRefusesSend -> "callee-refuses-send"
+       | SizeLimit.CallerRefusesRecv -> "caller-refuses-recv")
+  | [ "tparse"; h ] ->
+      if h = "none" then "NONE absent"
+      else
+        (match Timeout.parse_u64 (unhex h) with
+         | Some n -> "SOME " ^ string_of_n n
+         | None -> "NONE unparsable")
+  | [ "tfmt"; secs; nanos ] ->
+      let ns =
+        BinNat.N.add (BinNat.N.mul (n_of_string secs) (n_of_string "1000000000")) (n_of_string nanos)
+      in
+      "OK " ^ tohex (Timeout.duration_to_timeout ns)
+  | [ "tlayer"; _dir; dflt; hdr; h ] ->
+      let d = if dflt = "none" then None else Some (n_of_string dflt) in
+      let hv = if hdr = "none" then [] else [ (Timeout.timeout_key, unhex hdr) ] in
+      let e = Timeout.effective d (Timeout.header_timeout hv) in
+      (match Timeout.layer_outcome e (n_of_string h) with
+       | Timeout.Normal t -> "normal " ^ string_of_n t ^ " handler=completed"
+       | Timeout.CutOff t -> "cutoff " ^ string_of_n t ^ " handler=dropped"
+       | Timeout.Unspecified -> "unspecified")
+  | [ "trpc"; od; id; hdr; h; d1; d2 ] ->
+      let o s = if s = "none" then None else Some (n_of_string s) in
+      let hv = if hdr = "none" then None else Timeout.parse_u64 (unhex hdr) in
+      (match Timeout.rpc_outcome (o od) (o id) hv (n_of_string h) (n_of_string d1) (n_of_string d2) with
+       | Timeout.Response t -> "response " ^ string_of_n t
+       | Timeout.RequestTimeoutStatus t -> "status408 " ^ string_of_n t
+       | Timeout.CallerTimeoutError t -> "callertimeout " ^ string_of_n t
+       | Timeout.RaceUnspecified -> "unspecified")
   | [ "version"; v ] ->
       (match Wire.version_new (n_of_string v) with
        | Base.Ok v -> "OK " ^ string_of_n v
